@@ -10,7 +10,7 @@ KW33 = {"_", "and", "annotation", "as", "attr", "class", "const", "enum", "false
 
 def ESC(name):
     """Back-quote escaping of keywords."""
-    return ite(name in KW33, "`" + name + "`", name)
+    return (("`" + name + "`") if (name in KW33) else (name))
 
 
 @contract("safeds_stubgen.stubs_generator._helper:_replace_if_safeds_keyword", props=["C02"])
